@@ -10,6 +10,7 @@ import (
 	"fmt"
 	"io"
 	"reflect"
+	"runtime"
 	"strings"
 	"sync"
 
@@ -17,16 +18,17 @@ import (
 )
 
 type thriftCase struct {
-	Layout []tField `json:"layout"`
-	Vals   []tVal   `json:"vals"`
-	Salt   int      `json:"salt"`
-	Proto  string   `json:"proto"` // "binary" | "binary-nonstrict" | "compact"
-	What   string   `json:"what"`
-	Bytes  string   `json:"bytes,omitempty"`
-	Want   string   `json:"want,omitempty"`
-	AsIs   string   `json:"asis,omitempty"`
-	Extra  []tField `json:"extra,omitempty"`
-	Hist   []string `json:"hist,omitempty"`
+	Layout []tField  `json:"layout"`
+	Vals   []tVal    `json:"vals"`
+	Salt   int       `json:"salt"`
+	Proto  string    `json:"proto"` // "binary" | "binary-nonstrict" | "compact"
+	What   string    `json:"what"`
+	Bytes  string    `json:"bytes,omitempty"`
+	Want   string    `json:"want,omitempty"`
+	AsIs   string    `json:"asis,omitempty"`
+	Extra  []tField  `json:"extra,omitempty"`
+	Hist   []string  `json:"hist,omitempty"`
+	Alloc  *allocVec `json:"alloc,omitempty"`
 }
 
 func protoOf(name string) thrift.Protocol {
@@ -906,82 +908,148 @@ func c08LongValue(c *Ctx, pn string) {
 	}
 }
 
-// c08Announced: a list or map header that announces far more elements than the input holds, with few, 1023 .. 1025 and
-// thousands of real elements behind it (decoders reserve room for the first elements and grow from there): the memory
-// allocated must stay within a constant factor of the bytes that are there.  Runs alone (Extra), so the meter is quiet.
-func c08Announced(c *Ctx) {
-	uvar := func(n uint64) []byte {
-		var b []byte
-		for n >= 0x80 {
-			b = append(b, byte(n)|0x80)
-			n >>= 7
+// ---------------------------------------------------------------- announced sizes (spec/WireAlloc.tla)
+
+// allocVec: a list / map / byte string whose header announces n units while r are present (model sizes)
+type allocVec struct {
+	Kind  string `json:"kind"`
+	N     int    `json:"n"`
+	R     int    `json:"r"`
+	Pre   int    `json:"pre"`
+	Small int    `json:"small"`
+}
+
+// liftSize maps a model size onto the real constant `real` that the model constant `base` stands for: multiples
+// of base become multiples of real, sizes just below / above a multiple stay just below / above it
+func liftSize(x, base, real int) int {
+	q, rem := x/base, x%base
+	if rem <= base/2 {
+		return q*real + rem
+	}
+	return (q+1)*real - (base - rem)
+}
+
+// liftAnnounced: as liftSize up to four times the constant, then doubling up to 2^31-1
+func liftAnnounced(x, base, real int) (int, bool) {
+	if x <= 4*base {
+		return liftSize(x, base, real), true
+	}
+	sh := x - 4*base
+	if sh > 21 {
+		return 0, false
+	}
+	v := (4 * real) << sh
+	if v >= 1<<31 || v <= 0 {
+		v = 1<<31 - 1
+	}
+	return v, true
+}
+
+func uvarintBytes(n uint64) []byte {
+	var b []byte
+	for n >= 0x80 {
+		b = append(b, byte(n)|0x80)
+		n >>= 7
+	}
+	return append(b, byte(n))
+}
+
+func be32Bytes(n uint32) []byte { return []byte{byte(n >> 24), byte(n >> 16), byte(n >> 8), byte(n)} }
+
+// c08Alloc replays one (kind, n, r) of the model on both protocols: the header announces n, r units follow, and the
+// decode must fail with an unexpected-EOF class error having allocated no more than a constant factor of the input.
+// C08 runs its vectors one at a time, so the process-wide allocation meter is quiet.
+func c08Alloc(c *Ctx, v *allocVec) {
+	base, real := v.Pre, 1024
+	if v.Kind == "bytes" {
+		base, real = v.Small, 4096
+	}
+	n, ok := liftAnnounced(v.N, base, real)
+	r := liftSize(v.R, base, real)
+	if !ok || r >= n {
+		return
+	}
+	c.Nontrivial()
+	type target struct {
+		name string
+		one  any // a container of one unit, encoded by the package: supplies the type codes and the unit's bytes
+		dst  func() any
+	}
+	var targets []target
+	switch v.Kind {
+	case "list":
+		targets = []target{
+			{"[]int8", []int8{7}, func() any { return new([]int8) }},
+			{"[]int64", []int64{1}, func() any { return new([]int64) }},
+			{"[]bool", []bool{true}, func() any { return new([]bool) }},
+			{"[]string", []string{"x"}, func() any { return new([]string) }},
+			{"set of int8", map[int8]struct{}{7: {}}, func() any { return new(map[int8]struct{}) }},
 		}
-		return append(b, byte(n))
-	}
-	be32 := func(n uint32) []byte { return []byte{byte(n >> 24), byte(n >> 16), byte(n >> 8), byte(n)} }
-	type elem struct {
-		name   string
-		one    any // a list of one element: the package's own encoder supplies the type code and the element bytes
-		target func() any
-	}
-	elems := []elem{
-		{"i8", []int8{7}, func() any { return new([]int8) }},
-		{"i64", []int64{1}, func() any { return new([]int64) }},
-		{"bool", []bool{true}, func() any { return new([]bool) }},
-		{"string", []string{"x"}, func() any { return new([]string) }},
+	case "map":
+		targets = []target{
+			{"map[int8]int8", map[int8]int8{1: 2}, func() any { return new(map[int8]int8) }},
+			{"map[int64]string", map[int64]string{1: "x"}, func() any { return new(map[int64]string) }},
+		}
+	default:
+		targets = []target{
+			{"string", "x", func() any { return new(string) }},
+			{"[]byte", []byte("x"), func() any { return new([]byte) }},
+		}
 	}
 	for _, pn := range []string{"binary", "compact"} {
 		p := protoOf(pn)
-		for _, e := range elems {
-			for _, real := range []int{0, 3, 1023, 1024, 1025, 1500, 5000} {
-				for _, announced := range []uint32{uint32(real) + 1, uint32(2*real + 5), 1 << 20, 48 << 20, 1<<31 - 1} {
-					enc1, err := thrift.Marshal(p, e.one)
-					if err != nil || len(enc1) < 2 {
-						c.SpecError("C08", "cannot encode a list of one element", e.name)
-						return
-					}
-					var in, one []byte
-					if pn == "binary" {
-						in, one = append([]byte{enc1[0]}, be32(announced)...), enc1[5:]
-					} else {
-						in, one = append([]byte{0xf0 | enc1[0]&0x0f}, uvar(uint64(announced))...), enc1[1:]
-					}
-					for i := 0; i < real; i++ {
-						in = append(in, one...)
-					}
-					k := thriftCase{Proto: pn, What: fmt.Sprintf("announced count %d, %d elements of %s present", announced, real, e.name)}
-					// top level, and as field 1 of a struct
-					encS, _ := thrift.Marshal(p, struct {
-						L []int8 `thrift:"1"`
-					}{[]int8{1}})
-					hdr := 3 // binary: type, id
-					if pn == "compact" {
-						hdr = 1
-					}
-					nested := append(append([]byte(nil), encS[:hdr]...), in...)
-					type holder struct {
-						name string
-						in   []byte
-						dst  any
-					}
-					sv := reflect.New(reflect.StructOf([]reflect.StructField{{Name: "L", Type: reflect.TypeOf(e.target()).Elem(), Tag: `thrift:"1"`}}))
-					for _, h := range []holder{{"thrift.Unmarshal(list)", in, e.target()}, {"thrift.Unmarshal(struct with a list)", nested, sv.Interface()}} {
-						var derr error
-						var pan string
-						c.Eval(1)
-						alloc := allocDuring(func() { pan = protect(func() { derr = thrift.Unmarshal(p, h.in, h.dst) }) })
-						bound := uint64(64*len(h.in) + 128<<10)
-						switch {
-						case pan != "":
-							c.Diverge("C08", h.name+"["+pn+"]", "an error, no panic", pan, "", k)
-						case derr == nil:
-							c.Diverge("C08", h.name+"["+pn+"]", "unexpected-EOF class error (fewer elements than announced)", "nil error", "", k)
-						case alloc > bound:
-							c.Diverge("C08", h.name+"["+pn+"]", fmt.Sprintf("allocation within a constant factor of the %d bytes present (<= %d)", len(h.in), bound),
-								fmt.Sprintf("%d bytes allocated, err=%v", alloc, derr), "", k)
-						}
-					}
+		for ti, tg := range targets {
+			enc1, err := thrift.Marshal(p, tg.one)
+			if err != nil || len(enc1) < 2 {
+				c.SpecError("C08", "cannot encode a container of one unit: "+tg.name, v)
+				return
+			}
+			var in, unit []byte
+			switch {
+			case v.Kind == "list" && pn == "binary":
+				in, unit = append([]byte{enc1[0]}, be32Bytes(uint32(n))...), enc1[5:]
+			case v.Kind == "list":
+				in, unit = append([]byte{0xf0 | enc1[0]&0x0f}, uvarintBytes(uint64(n))...), enc1[1:]
+			case v.Kind == "map" && pn == "binary":
+				in, unit = append([]byte{enc1[0], enc1[1]}, be32Bytes(uint32(n))...), enc1[6:]
+			case v.Kind == "map":
+				in, unit = append(uvarintBytes(uint64(n)), enc1[1]), enc1[2:]
+			case pn == "binary":
+				in, unit = be32Bytes(uint32(n)), []byte{'x'}
+			default:
+				in, unit = uvarintBytes(uint64(n)), []byte{'x'}
+			}
+			for i := 0; i < r; i++ {
+				in = append(in, unit...)
+			}
+			k := thriftCase{Proto: pn, What: fmt.Sprintf("announced size %d, %d present (%s)", n, r, tg.name), Alloc: v, Salt: ti}
+			var derr error
+			var pan string
+			dst := tg.dst()
+			c.Eval(1)
+			c.Case()
+			alloc := allocDuring(func() { pan = protect(func() { derr = thrift.Unmarshal(p, in, dst) }) })
+			bound := uint64(64*len(in) + 128<<10)
+			if alloc > bound && pan == "" {
+				// the meter is process-wide (a first use compiles the decoder, the runtime allocates too): what counts is
+				// what the same call allocates when it is repeated
+				for rep := 0; rep < 2 && alloc > bound; rep++ {
+					runtime.GC()
+					dst = tg.dst()
+					alloc = min(alloc, allocDuring(func() { pan = protect(func() { derr = thrift.Unmarshal(p, in, dst) }) }))
 				}
+			}
+			api := "thrift.Unmarshal(" + v.Kind + " announcing more than the input holds)[" + pn + "]"
+			switch {
+			case pan != "":
+				c.Diverge("C08", api, "an error, no panic", pan, "", k)
+			case derr == nil:
+				c.Diverge("C08", api, "unexpected-EOF class error", "nil error", "", k)
+			case !isUnexpectedEOF(derr):
+				c.Diverge("C08", api, "unexpected-EOF class error", derr.Error(), "", k)
+			case alloc > bound:
+				c.Diverge("C08", api, fmt.Sprintf("allocation within a constant factor of the %d bytes present (<= %d)", len(in), bound),
+					fmt.Sprintf("%d bytes allocated, err=%v", alloc, derr), "", k)
 			}
 		}
 	}
@@ -1066,6 +1134,13 @@ func convertAlt(dst, src reflect.Value, n *int) {
 }
 
 func c08Vector(c *Ctx, raw stdjson.RawMessage) {
+	var av allocVec
+	if stdjson.Unmarshal(raw, &av) == nil && av.Kind != "" && av.Pre > 0 {
+		if av.Kind != "append" {
+			c08Alloc(c, &av)
+		}
+		return
+	}
 	v, ok := parseThriftVec(c, "C08", raw)
 	if !ok {
 		return
@@ -1122,8 +1197,8 @@ func c08Vector(c *Ctx, raw stdjson.RawMessage) {
 func c08Replay(c *Ctx, raw stdjson.RawMessage) {
 	var k thriftCase
 	if stdjson.Unmarshal(raw, &k) == nil {
-		if strings.HasPrefix(k.What, "announced count") {
-			c08Announced(c)
+		if k.Alloc != nil {
+			c08Alloc(c, k.Alloc)
 			return
 		}
 		if strings.HasPrefix(k.What, "long value") {
@@ -1138,5 +1213,5 @@ func c08Replay(c *Ctx, raw stdjson.RawMessage) {
 func init() {
 	register("C13", &Driver{Vector: c13Vector, Replay: c13Replay})
 	register("C04", &Driver{Vector: c04Vector, Replay: c04Replay})
-	register("C08", &Driver{Vector: c08Vector, Replay: c08Replay, Extra: c08Announced})
+	register("C08", &Driver{Vector: c08Vector, Replay: c08Replay})
 }
